@@ -130,8 +130,14 @@ fn main() {
             install_quiet_panic_hook();
             let tier = if args[3] == "thorough" { Tier::Thorough } else { Tier::Quick };
             let base: u64 = args[4].parse().unwrap();
-            let idx: u64 = args[5].parse().unwrap();
+            // (further indices may follow: they are run first, in this process, as the history of the one printed)
+            let idxs: Vec<u64> = args[5..].iter().filter_map(|a| a.parse().ok()).collect();
+            let idx: u64 = *idxs.last().unwrap();
             let sc = exec::Scratch::new("one");
+            for h in &idxs[..idxs.len() - 1] {
+                let _ = checks::run_one(&args[2], tier, base.wrapping_add(*h), *h, &sc);
+                eprintln!("---- history index {h} done");
+            }
             let rec = checks::run_one(&args[2], tier, base.wrapping_add(idx), idx, &sc);
             println!("log_digest {:016x} evaluations {} vacuous {} verdicts {:?}", rec.log_digest, rec.evaluations, rec.vacuous, rec.verdicts);
             println!("fired {:?}", rec.fired);
